@@ -12,7 +12,8 @@ import sys
 import tempfile
 
 VERIF = os.path.dirname(os.path.dirname(os.path.abspath(__file__)))
-REPO = '/repo'
+REPO = '/repo'                                   # worktrees for confirmation are always cut from the real repository
+TARGET = os.environ.get('BB_REPO', REPO)         # where patches are applied for the check runs (a scratch checkout when set)
 
 
 def sh(cmd, cwd=None, timeout=3600, env=None):
@@ -52,9 +53,9 @@ def confirm(src):
 
 def run_checks(patch, props, tier='quick'):
     """apply to /repo, run the checks, undo"""
-    rc, out = sh(['git', '-C', REPO, 'status', '--porcelain'])
-    assert out.strip() == '', '/repo is not clean: ' + out
-    rc, out = sh(['git', '-C', REPO, 'apply', os.path.abspath(patch)])
+    rc, out = sh(['git', '-C', TARGET, 'status', '--porcelain'])
+    assert out.strip() == '', TARGET + ' is not clean: ' + out
+    rc, out = sh(['git', '-C', TARGET, 'apply', os.path.abspath(patch)])
     assert rc == 0, out
     results = {}
     try:
@@ -69,7 +70,7 @@ def run_checks(patch, props, tier='quick'):
                     break
             results[p] = dict(exit=rc, violations=len(viol), no_input=any('no-failing-input-found' in l for l in viol), first=first)
     finally:
-        sh(['git', '-C', REPO, 'checkout', '--', '.'])
+        sh(['git', '-C', TARGET, 'checkout', '--', '.'])
     return results
 
 
@@ -85,7 +86,10 @@ def adopt(src, mid, prop, props):
     os.makedirs(dst, exist_ok=True)
     for f in ('patch.diff', 'demo.py'):
         shutil.copy(os.path.join(src, f), os.path.join(dst, f))
-    note = open(os.path.join(src, 'NOTE.txt')).read() if os.path.exists(os.path.join(src, 'NOTE.txt')) else ''
+    note = ''
+    for nf in ('NOTE.txt', 'notes.txt'):
+        if os.path.exists(os.path.join(src, nf)):
+            note = open(os.path.join(src, nf)).read()
     meta = dict(id=mid, breaks=prop, needs=note.strip(), confirmed=c,
                 ran=['./check {} --tier quick'.format(p) for p in props], results=r,
                 caught_by=[p for p, v in r.items() if v['exit'] == 1 and not v['no_input']],
